@@ -81,7 +81,7 @@ def _depth(f, arg):
 
 
 def run_case(case, ctx):
-    c = build(case["c"])
+    c = build(case["c"], case.get("ord"))
     evs = [query_event(c, case, ctx, 0)]
     r = ctx.rng("C12e", case.get("salt", 0))
     if r.random() < 0.25:
@@ -125,7 +125,8 @@ def query_event(c, case, ctx, phase):
             "sp": S(c.startpoints(arg)), "ep": S(c.endpoints(arg)),
             "fid": _depth(c.fanin_depth, arg), "fod": _depth(c.fanout_depth, arg),
         })
-    ev = {"kind": "graph", "c": p, "q": qs, "cyclic": bool(c.is_cyclic())}
+    ev = {"kind": "graph", "c": p, "q": qs, "cyclic": bool(c.is_cyclic()), "sp_all": S(c.startpoints()), "ep_all": S(c.endpoints()),
+          "ins_all": S(c.inputs()), "outs_all": S(c.outputs())}
     ev["levels"], ev["levels_raised"], ev["levels_exc"] = [], False, ""
     try:
         lv = cg.props.levelize(c)
@@ -138,7 +139,7 @@ def query_event(c, case, ctx, phase):
         ev["reconv"] = S(set(c.reconvergent_fanout_nodes()))
         ev["has_reconv"] = bool(c.has_reconvergent_fanout())
         for n in rng.sample(names, min(3, len(names))):
-            for k in (1, 2, 3):
+            for k in (3, 2, 1):        # descending: nothing computed for a larger k may leak into a smaller one
                 cuts = c.kcuts(n, k)
                 ev["kcuts"].append({"n": idx[n], "k": k, "cuts": [S(cut) for cut in cuts]})
     ev["nontrivial"] = sum(len(f) for f in p["fi"]) >= 3
